@@ -40,6 +40,7 @@ var wireGoOps = map[string]bool{
 	"varint": true, "cvarint": true, "fixed32": true, "fixed64": true, "cfixed32": true, "cfixed64": true,
 	"zz": true, "unzz": true, "bool": true, "unbool": true, "etag": true, "dtag": true, "tag": true,
 	"ctag": true, "bytes": true, "cbytes": true, "agroup": true,
+	"cfv": true, "cfield": true, "cgroup": true, // translated with fuel-indexed fixpoints (loops, recursion)
 }
 
 // wireNoGo suppresses the go_<op> duplicates (bulk exhaustive enumeration).
@@ -519,7 +520,10 @@ func wireCGroup(c *Ctx, num protowire.Number, in []byte) {
 
 // deepGroups: nesting at DefaultRecursionLimit-1, =, +1, +2.
 func deepGroups(c *Ctx) {
-	for _, d := range []int{9999, 10000, 10001, 10002, 10003} {
+	for _, d := range []int{300, 9999, 10000, 10001, 10002, 10003} {
+		// the translated scanner recomputes its loop fuel (the input length, as a unary
+		// number) at every nesting level: quadratic, so it only sees the moderately deep case
+		wireNoGo = d > 1000
 		var b []byte
 		for i := 0; i < d; i++ {
 			b = append(b, 0x0b) // field 1 start group
@@ -530,6 +534,7 @@ func deepGroups(c *Ctx) {
 		wireCField(c, b, false)
 		c.Stat("deepgroups")
 	}
+	wireNoGo = false
 }
 
 // wirePErr: ParseError maps a code to the class of the returned error value.
